@@ -213,6 +213,7 @@ class C20(Check):
         evaluations = 0
         mutated_between_calls = False
         seen_call = False
+        abandoned = False      # the history left the judged domain (see 'replies-share-a-patch-id'): nothing after that point is compared
         where = f"target={target} passthrough={spec['passthrough']} ops={jg.short(spec['ops'], 600)}"
 
         def expect_element(ep: str, m: str, params: Any, rid: Any) -> Dict[str, Any]:
@@ -443,7 +444,8 @@ class C20(Check):
                         eff = [x for x in eff if x is not None]
                         if isinstance(exc, pjrpc.exc.IdentityError) and any(type(a) is type(b) and a == b for i, a in enumerate(eff) for b in eff[i + 1:]):
                             classes.add('batch/replies-share-a-patch-id-unjudged')
-                            continue
+                            abandoned = True
+                            break
                     if exc is not None:
                         discs.append(Disc(f"C20/call-raised/{type(exc).__name__}", f"{exc!r} for {text!r} | {where}"))
                         break
@@ -470,7 +472,7 @@ class C20(Check):
             if not discs and decoy.calls:
                 discs.append(Disc("C20/calls-recorded-by-another-mocker", f"a second mocker that was never called reports {jg.short({k: list(v) for k, v in decoy.calls.items()}, 200)} | {where}"))
             # recorded calls
-            if not discs:
+            if not discs and not abandoned:
                 got_calls = {}
                 for ep, per in mocker.calls.items():
                     for (ver, m), stub in per.items():
